@@ -247,6 +247,42 @@ fn avro_ocf_deflate(r: &mut Runner, sink: GuardSink) {
     r.always("into_inner", move || Ok::<(), NoErr>(drop(w.into_inner())));
 }
 
+/// batches whose body buffers have lengths 1, 3, 5, 9, 12 ... bytes: every buffer is followed by a non-empty
+/// alignment padding write, for alignment 8 as well as 64
+pub fn odd_batches() -> (RecordBatch, RecordBatch) {
+    use arrow_array::{BinaryArray, Int8Array};
+    let schema = Arc::new(Schema::new(vec![
+        Field::new("t", DataType::Int8, true),
+        Field::new("s", DataType::Utf8, true),
+        Field::new("y", DataType::Binary, false),
+        Field::new("b", DataType::Boolean, false),
+    ]));
+    let mk = |t: Vec<Option<i8>>, s: Vec<Option<&str>>, y: Vec<&[u8]>, b: Vec<bool>| {
+        RecordBatch::try_new(schema.clone(), vec![Arc::new(Int8Array::from(t)) as ArrayRef, Arc::new(StringArray::from(s)), Arc::new(BinaryArray::from(y)), Arc::new(BooleanArray::from(b))]).unwrap()
+    };
+    (
+        mk(vec![Some(1), None, Some(-3)], vec![Some("ab"), None, Some("cde")], vec![b"123456789", b"", b""], vec![true, false, true]),
+        mk(vec![Some(7)], vec![Some("x")], vec![b"zzz"], vec![false]),
+    )
+}
+fn ipc_odd<const FILE: bool, const ALIGN: usize>(r: &mut Runner, sink: GuardSink) {
+    let (b1, b2) = odd_batches();
+    let opts = arrow_ipc::writer::IpcWriteOptions::try_new(ALIGN, false, arrow_ipc::MetadataVersion::V5).unwrap();
+    if FILE {
+        let Some(mut w) = r.step("new", || arrow_ipc::writer::FileWriter::try_new_with_options(sink, &b1.schema(), opts)) else { return };
+        r.step("write1", || w.write(&b1));
+        r.step("write2", || w.write(&b2));
+        r.step("finish", || w.finish());
+        r.always("into_inner", move || w.into_inner().map(|_| ()));
+    } else {
+        let Some(mut w) = r.step("new", || arrow_ipc::writer::StreamWriter::try_new_with_options(sink, &b1.schema(), opts)) else { return };
+        r.step("write1", || w.write(&b1));
+        r.step("write2", || w.write(&b2));
+        r.step("finish", || w.finish());
+        r.always("into_inner", move || w.into_inner().map(|_| ()));
+    }
+}
+
 pub fn pq_props() -> parquet::file::properties::WriterProperties {
     parquet::file::properties::WriterProperties::builder().set_created_by("verif".into()).set_data_page_row_count_limit(2).set_write_batch_size(1).build()
 }
@@ -394,6 +430,10 @@ pub fn cases() -> Vec<WriterCase> {
         WriterCase { name: "csv-writer", deterministic: true, run: csv },
         WriterCase { name: "json-line-delimited-writer", deterministic: true, run: json_lines },
         WriterCase { name: "json-array-writer", deterministic: true, run: json_array },
+        WriterCase { name: "ipc-stream-writer-odd-buffers-align8", deterministic: true, run: ipc_odd::<false, 8> },
+        WriterCase { name: "ipc-stream-writer-odd-buffers-align64", deterministic: true, run: ipc_odd::<false, 64> },
+        WriterCase { name: "ipc-file-writer-odd-buffers-align8", deterministic: true, run: ipc_odd::<true, 8> },
+        WriterCase { name: "ipc-file-writer-odd-buffers-align64", deterministic: true, run: ipc_odd::<true, 64> },
         WriterCase { name: "ipc-stream-writer-zstd", deterministic: true, run: ipc_stream_zstd },
         WriterCase { name: "ipc-file-writer-lz4", deterministic: true, run: ipc_file_lz4 },
         WriterCase { name: "parquet-arrow-writer-snappy", deterministic: true, run: parquet_arrow_snappy },
